@@ -236,7 +236,20 @@ func init() {
 	externals["os.UserConfigDir"] = func(fr *frame, a []value) value { return tuple{"/home/u/.config", iface{}} }
 	externals["os.Getwd"] = func(fr *frame, a []value) value { return tuple{"/work", iface{}} }
 	externals["os.Executable"] = func(fr *frame, a []value) value { return tuple{"/usr/local/bin/wtf", iface{}} }
-	externals["os.Getenv"] = func(fr *frame, a []value) value { return "" }
+	externals["os.Getenv"] = func(fr *frame, a []value) value { return fr.i.env.getenv(pathArg(fr.i, a[0])) }
+	externals["os.LookupEnv"] = func(fr *frame, a []value) value {
+		name := pathArg(fr.i, a[0])
+		v, ok := fr.i.env.envVars[name]
+		return tuple{v, ok}
+	}
+	harnessAPI["verifSetenv"] = func(fr *frame, a []value) value {
+		// verifSetenv(name, value string): an environment variable of the process under test
+		if fr.i.env.envVars == nil {
+			fr.i.env.envVars = map[string]string{}
+		}
+		fr.i.env.envVars[a[0].(string)] = a[1].(string)
+		return nil
+	}
 
 	// ---- decoders ----
 	externals["gopkg.in/yaml.v3.Marshal"] = func(fr *frame, a []value) value {
